@@ -5003,6 +5003,10 @@ class Path:
                     seg = new_path.segments[segid]
                     # if destinations await the second round, add them
                     if len(seg.await_to) > 0:
+                        # (work on a copy: the segment objects are shared with
+                        # the other paths and with the part)
+                        seg = copy(seg)
+                        new_path.segments[segid] = seg
                         # keep only jumps to the past
                         to = [idx for idx in seg.to if idx <= seg.id]
                         # add the waiting destinations
